@@ -28,13 +28,15 @@ BUDGETS = dict(quick=dict(shards=8), thorough=dict(shards=16))
 @st.composite
 def strat(draw, tier):
     big = tier == 'thorough'
+    many = draw(st.floats(0, 1)) < 0.3  # some tables have more rows than the machine has cores
     case = draw(gen.expression_cases(tier, differentiable=True, min_free=1, with_weight=True, sharing=False,
-                                     min_rows=2, max_rows=24 if big else 10))
+                                     min_rows=18 if many else 2, max_rows=(40 if big else 24) if many else (24 if big else 10)))
+    case['keys'] = [draw(st.sampled_from(['log_like', 'log_like', 'loglike'])), draw(st.sampled_from(['weight', 'weights']))]
     n = len(case['table']['columns'][0][2])
     wcol = case['weight_column']
     case['weight'] = draw(st.sampled_from([None, ['Var', wcol], ['Var', wcol], ['Times', ['Num', 2.0], ['Var', wcol]],
                                            ['Plus', ['Var', wcol], ['Num', 0.5]], ['Num', 1.0], ['Num', 3.0]]))
-    threads = sorted(set([1, 2, draw(st.integers(1, n)), n, n + draw(st.integers(1, 3)), 0]))
+    threads = sorted(set([1, 2, draw(st.integers(1, n)), n, n + draw(st.integers(1, 3)), 0] + ([33] if many else [])))
     case['threads'] = threads
     case['perm'] = list(draw(st.permutations(list(range(n)))))
     k = draw(st.integers(2, min(4, n)))
@@ -52,9 +54,10 @@ def _make(case, table, threads):
     from biogeme.parameters import Parameters
 
     b = build.Builder(case['shared'], overloads=case['overloads'])
-    formulas = {'log_like': b.build(case['roots'][0])}
+    k_like, k_weight = case.get('keys', ['log_like', 'weight'])
+    formulas = {k_like: b.build(case['roots'][0])}
     if case['weight'] is not None:
-        formulas['weight'] = build.Builder([]).build(case['weight'])
+        formulas[k_weight] = build.Builder([]).build(case['weight'])
     params = Parameters()
     params.set_value(name='number_of_threads', value=threads)
     the = bio.BIOGEME(build.build_database(table), formulas, parameters=params)
@@ -83,13 +86,16 @@ def _observe(case):
                              b=_arr(d.bhhh), sf=float(ds.function), sg=_arr(ds.gradient), sh=_arr(ds.hessian),
                              sb=_arr(ds.bhhh)))
         res['threads'][t] = runs
+        k_like, k_weight = case.get('keys', ['log_like', 'weight'])
+        sim = the.simulate(dict(zip(the.free_beta_names, x)))
+        # the same object is used again after a simulation
+        runs.append(dict(runs[-1], like=float(the.calculate_likelihood(x, scaled=False)), after_simulate=True))
         if t == 1:
             res['names'] = list(the.free_beta_names)
             res['sample_size'] = int(the.database.get_sample_size())
-            sim = the.simulate(dict(zip(the.free_beta_names, x)))
             res['sim_columns'] = list(sim.columns)
-            res['sim_log_like'] = _arr(sim['log_like'])
-            res['sim_weight'] = _arr(sim['weight']) if 'weight' in sim.columns else None
+            res['sim_log_like'] = _arr(sim[k_like])
+            res['sim_weight'] = _arr(sim[k_weight]) if k_weight in sim.columns else None
     # per-observation derivatives of the same formula (same engine)
     e = build.Builder(case['shared'], overloads=case['overloads']).build(case['roots'][0])
     database = build.build_database(case['table'])
@@ -138,7 +144,8 @@ def judge(case) -> Outcome:
     bounds = [0] + list(case['cuts']) + [n]
     unequal = len({hi - lo for lo, hi in zip(bounds[:-1], bounds[1:])}) > 1
     out.nontrivial = n >= 3 and not const_w and unequal and any(t > n for t in case['threads'])
-    out.classes += ['weighted' if case['weight'] is not None else 'unweighted',
+    out.classes += [f'keys={"/".join(case.get("keys", []))}', 'more_rows_than_cores' if n > 16 else 'few_rows',
+                    'weighted' if case['weight'] is not None else 'unweighted',
                     'const_weight' if const_w else 'varying_weight', f'rows={min(n, 10)}']
     res = isolate.call(_observe, case)
     if not res['ok']:
@@ -184,7 +191,7 @@ def judge(case) -> Outcome:
     for t, runs in o['threads'].items():
         tag = 'threads>rows' if (t > n) else ('threads=0' if t == 0 else 'threads<=rows')
         for r_i, r in enumerate(runs):
-            where = f' (number_of_threads={t}, {n} rows, evaluation {r_i + 1}/3)'
+            where = f' (number_of_threads={t}, {n} rows, evaluation {r_i + 1}/{len(runs)}' + (', after simulate()' if r.get('after_simulate') else '') + f', formula keys {case.get("keys")})'
             if not abs(r['like'] - total_sim) <= tol:
                 out.fail(f'likelihood:{tag}', f'calculate_likelihood = {r["like"]!r} but sum_n w_n l_n from simulate = {total_sim!r}' + where)
                 return out
